@@ -6,8 +6,11 @@ Helper lemmas for C14 (4): the first incarnation of a run against its reload.
 While a run has only ever lived in memory (no release / restart yet) the server state is the runner
 LTS plus bookkeeping, and — for policies that do not look at elapsed time and ticks whose persisted
 form is the tick itself (no waiter requirements) — reloading its persisted log at *any* clock gives
-exactly `Runner.init (roundtrip live.st)`: the live reducer state, written by `to_serialized`, read
-back and restarted.
+`Runner.init (roundtrip b)` for a state `b` that agrees with the live reducer state up to
+`first_attempt_at` values (`Sim b live.st`): the live reducer state, written by `to_serialized`, read
+back and restarted.  (Since the repair of C08/lineage_suspended_in_wait a waiter keeps the
+`first_attempt_at` of the invocation suspended in it; for an invocation that was started by the
+replay that value is the clock of the replay.)
 -/
 set_option linter.unusedVariables false
 namespace Engine
@@ -53,8 +56,8 @@ theorem reload_of_live (c : SrvCfg) {pol : Policy} (hp : TimeIndep pol) (start :
     (now : Int) :
     let r := Runner.run c.cfg pol (Runner.init c.cfg initState t0 (some start) c.timeout) racts
     r.outcome = none → r.st.isRunning = true → r.log ≠ [] → (∀ p ∈ r.log, p.1.stored = p.1) →
-      reload c pol (r.log.map (fun p => p.1.stored)) now =
-        .ok (Runner.init c.cfg (roundtrip c.cfg r.st) now none c.timeout) none := by
+      ∃ b, Sim b r.st ∧ reload c pol (r.log.map (fun p => p.1.stored)) now =
+        .ok (Runner.init c.cfg (roundtrip c.cfg b) now none c.timeout) none := by
   intro r hout hrun hne hper
   have hinv : LogInv c.cfg pol (rewind c.cfg initState t0).1 r :=
     run_logInv c.cfg pol _ racts _ (init_logInv c.cfg pol initState t0 (some start) c.timeout)
@@ -81,9 +84,9 @@ theorem reload_of_live (c : SrvCfg) {pol : Policy} (hp : TimeIndep pol) (start :
       simp only at hsim
       obtain ⟨hs, he⟩ := hsim
       simp only
-      have hrt : roundtrip c.cfg b = roundtrip c.cfg r.st := (roundtrip_sim c.cfg hs).symm
       have hb : (roundtrip c.cfg b).isRunning = true := by
-        rw [hrt]; exact hrun
-      rw [if_pos hb, hrt, ← he]
+        rw [← (roundtrip_sim c.cfg hs).running]; exact hrun
+      refine ⟨b, hs.symm, ?_⟩
+      rw [if_pos hb, ← he]
 
 end Engine
